@@ -39,6 +39,38 @@ reg('C07',
     ' lists come from four templates.',
     'DESIGN.md 4 C07')
 
+reg('C04',
+    'exhaustive enumeration of all card subsets per hand class against a'
+    ' from-scratch reference evaluator + Hypothesis pairs via the public'
+    ' comparison operators',
+    'The finite domain is enumerated completely on every run (19.4 M hand'
+    ' evaluations): validity both ways, one reference key per engine rank,'
+    ' strict monotonicity => all pairs agree; public operators, hash, label'
+    ' and malformed inputs by generated pairs.',
+    'Trusted: the reference evaluator (pkv/refeval.py, ~200 lines written'
+    ' from the rules); duplicated cards and half-known cards (\'A?\') are'
+    ' outside the stated domain.',
+    'DESIGN.md 4 C04')
+reg('C05',
+    'Hypothesis-generated (hand class, hole, board) inputs vs brute force'
+    ' over the legal combinations with the reference evaluator',
+    'Generated-input differential test against a brute-force oracle that'
+    ' encodes each composition rule; both directions (best key; none <=> no'
+    ' legal combination).',
+    'Trusted: pkv/refeval.py; Greek hold\'em only with exactly two hole'
+    ' cards.',
+    'DESIGN.md 4 C05')
+reg('C08',
+    'Hypothesis-generated histories + argument probes at quiescent states;'
+    ' differential oracle query vs verifier vs operation on deep copies',
+    'Generated-history search; at probe-chosen states each of the 16'
+    ' operations is tried with valid/invalid/boundary arguments; oracle ='
+    ' three-way agreement, exception types, state unchanged after refusal,'
+    ' explicit index applied.',
+    'Arguments within documented types; unknown cards only as face-down hole'
+    ' cards or burns.',
+    'DESIGN.md 4 C08')
+
 NOT_APPLICABLE = {}
 
 ALL = [f'C{i:02d}' for i in range(1, 21)]
